@@ -41,6 +41,10 @@ THEOREMS = {
         "Shroud.Lines.wl_subline_spec",
         "Shroud.Lines.wof_header_then_body",
         "Shroud.Lines.emitter_line_config",
+        "Shroud.Lines.user_line_protected",
+        "Shroud.Lines.user_line_emitted",
+        "Shroud.Lines.unprotected_line_loses_text",
+        "Shroud.Lines.splicer_branches_protect_user_code",
     ]
 }
 
@@ -280,6 +284,21 @@ def rand_line(r):
     return "".join(r.choice(words) for _ in range(n))
 
 
+def struct_line(r):
+    """A statement-shaped logical line: optional leading \\r (subprogram statement: continuation lines get a double
+    indent), then many parts of similar length separated by break hints, so that part ends fall on every column
+    around the limit."""
+    lead = r.choice(["", "\r", "\r"])
+    plen = r.randrange(1, 12)
+    n = r.randrange(3, 40)
+    hint = r.choice(["\t", "\t", "\f"])
+    parts = []
+    for _ in range(n):
+        m = max(1, plen + r.randrange(-1, 2))
+        parts.append("".join(r.choice("abcxyz_") for _ in range(m)) + r.choice([",", ", ", ",", ""]))
+    return lead + r.choice(["subroutine f(", "call g(", "int h(", ""]) + hint.join(parts) + r.choice([")", ") &", ""])
+
+
 def run(ctx):
     thorough = ctx.tier == "thorough"
     from tools import extract_linecfg
@@ -332,6 +351,11 @@ def run(ctx):
         sp = r.choice(["    ", "  ", " ", "\t", ""])
         cont = r.choice(["&", " \\", "", "&&"])
         wc_cases.append((ll, ind, sp, cont, rand_line(r).replace("\n", " ")))
+    nstruct = 12000 if thorough else 3000
+    for _ in range(nstruct):
+        ll = r.choice([20, 30, 40, 60, 72, 80, 100, 132])
+        wc_cases.append((ll, r.randrange(0, 4), r.choice(["    ", "  ", " "]), r.choice(["&", " \\", " &"]), struct_line(r)))
+    ctx.note("wc_structured_cases", nstruct)
     # write_lines cases
     wl_alpha = ALPHA_QUICK
     nwl = 30000 if thorough else 6000
@@ -376,6 +400,19 @@ def run(ctx):
         reqs.append("wof %s %s %s %s %d %s %s %s" % (common.enc(comment), common.enc(fname), common.enc(version),
                                                    common.encs(copyright) if copyright else "~", ll, common.enc(sp), common.enc(cont), enc_items(items)))
         impl.append(real_wof(comment, fname, version, copyright, ll, sp, cont, items))
+    # _literal_lines: the protection of user supplied lines
+    lit_cases = ["", "#", "@", "+", "-", "^", "a+", "x = a +", "- b;", "#if X +", "@brief", "^x", "+-", "-+", " -x", "a\t+"]
+    for s0 in gen_strings("a+-@#^ ", 3 if not thorough else 4):
+        lit_cases.append(s0)
+    for _ in range(2000 if thorough else 400):
+        lit_cases.append(rand_line(r).replace("\n", " "))
+    for s0 in lit_cases:
+        reqs.append("lit %s" % common.enc(s0))
+        try:
+            impl.append(common.enc(list(w._literal_lines([s0]))[0]))
+        except Exception as e:  # noqa
+            impl.append("crash %s" % type(e).__name__)
+    ctx.note("literal_line_cases", len(lit_cases))
     ctx.count(len(reqs))
     disagreements = []
     if drv.available() and ok:
@@ -429,6 +466,8 @@ def run(ctx):
     # emitter configuration: each language's files depend on its own line-length option only, and no
     # non-comment Fortran line exceeds 132 columns
     linecfg_oracle(ctx, r, thorough)
+    # user supplied lines (declaration-level splicer:, splicer_code:) reach the files character for character
+    literal_oracle(ctx, r, thorough)
     # write_lines crash oracle: logical lines consisting only of directives
     for s in ["@", "+", "-", "+-", "--", "-+"]:
         res = real_wl(w, 72, 0, "    ", "&", [s])
@@ -525,6 +564,68 @@ def linecfg_oracle(ctx, r, thorough):
                             ctx.fail("linecfg:cross-dependence:%s" % tag, "%s: %s" % (what, dd[:4]), {"yaml": lib.yaml(), "files": dd[:8]})
     finally:
         common.rmtree(work)
+
+
+USER_LINES_C = ["int SHC_rv = first +", "- third;", "+ 1;", "@brief user line", "^caret line", "return SHC_rv +", "0;",
+                "-- x; /* two dashes */", "a = b + /* trailing */ c +"]
+USER_LINES_F = ["SHT_rv = first + &", "- third", "+ 1", "@not a directive", "^caret"]
+
+
+def literal_oracle(ctx, r, thorough):
+    """End to end, implementation only: user lines that look like write_lines directives, supplied through a
+    declaration-level `splicer:` block and through `splicer_code:`, must appear in the generated file with every
+    character (leading indentation aside), and the line after the block must keep its indentation."""
+    from tools import shroudrun
+    import yaml as _yaml
+    for rep in range(3 if thorough else 1):
+        cl = r.sample(USER_LINES_C, r.randrange(3, len(USER_LINES_C) + 1))
+        fl = r.sample(USER_LINES_F, r.randrange(2, len(USER_LINES_F) + 1))
+        cl2 = r.sample(USER_LINES_C, r.randrange(2, 6))
+        desc = {"library": "lit", "cxx_header": "lit.hpp", "language": "c++",
+                "options": {"wrap_python": False, "wrap_lua": False},
+                "declarations": [
+                    {"decl": "int lfun(int first, int third)", "splicer": {"c": list(cl), "f": list(fl)}},
+                    {"decl": "int lbuf(const std::string & first, int third)", "splicer": {"c_buf": list(cl)}},
+                    {"decl": "int lcode(const std::string & first, int third)"}],
+                "splicer_code": {"c": {"function": {"lcode": list(cl2)}}, "f": {"function": {"lcode": list(fl)}}}}
+        text = _yaml.safe_dump(desc, sort_keys=False)
+        d = common.scratch()
+        try:
+            y = shroudrun.write_yaml(d, "lit.yaml", text)
+            cfg, exc, out = shroudrun.run_inproc([y], d)
+            ctx.count(1)
+            ctx.nontrivial(("literal", rep))
+            if exc is not None:
+                ctx.fail("literal:exception", "Shroud failed on a description with splicer blocks: %r" % (exc,), {"yaml": text})
+                continue
+            tree = shroudrun.read_tree(d)
+            files = {"c": b"\n".join(v for k, v in tree.items() if k.endswith(".cpp")).decode(),
+                     "f": b"\n".join(v for k, v in tree.items() if k.endswith(".f")).decode()}
+            for where, block, lines, lang in (("splicer: c of lfun", "function.lfun", cl, "c"), ("splicer: f of lfun", "function.lfun", fl, "f"),
+                                              ("splicer: c_buf of lbuf", "function.lbuf_bufferify", cl, "c"),
+                                              ("splicer_code c of lcode", "function.lcode", cl2, "c"),
+                                              ("splicer_code f of lcode", "function.lcode", fl, "f")):
+                phys = files[lang].split("\n")
+                b = [k for k, ln in enumerate(phys) if "splicer begin " + block in ln and ln.strip().endswith(block)]
+                e = [k for k, ln in enumerate(phys) if "splicer end " + block in ln and ln.strip().endswith(block)]
+                ctx.count(1)
+                if not b or not e:
+                    ctx.fail("literal:block-missing:" + where, "block %s not found in the %s output" % (block, lang), {"yaml": text})
+                    continue
+                got = [ln.strip() for ln in phys[b[0] + 1:e[0]]]
+                want = [ln.strip() for ln in lines]
+                if got != want:
+                    ctx.fail("literal:user-line-altered:" + where.split(" of ")[0],
+                             "user lines supplied through %s are not emitted character for character: want %r, got %r" % (where, want, got),
+                             {"yaml": text, "block": block, "want": want, "got": got})
+                ib = len(phys[b[0]]) - len(phys[b[0]].lstrip())
+                ie = len(phys[e[0]]) - len(phys[e[0]].lstrip())
+                if ib != ie:
+                    ctx.fail("literal:indentation-shifted:" + where.split(" of ")[0],
+                             "the lines after block %s are indented %d instead of %d columns: a user line was read as an indentation directive" % (block, ie, ib),
+                             {"yaml": text, "block": block})
+        finally:
+            common.rmtree(d)
 
 
 def replay(path):
